@@ -3,6 +3,7 @@ mod analysis;
 mod dbtie;
 mod lifecycle;
 mod module;
+mod symtie;
 
 use vh_common::{Args, Report};
 
